@@ -90,6 +90,8 @@ bool budget_trip(BudgetState &b, const char *kind) {
         }
     }
     b.tripped = true; b.kind = kind; note_site(b);
+    if (std::getenv("SIM_DEBUG_BUDGET")) if (FILE *dbg = std::fopen(std::getenv("SIM_DEBUG_BUDGET"), "a")) { std::fprintf(dbg, "[budget] trip kind=%s site=%s reads=%llu/%llu bytes=%llu/%llu window=%lld max_heap=%llu in_data=%d claimed=%llu objs=%llu soft=%d S=%llu\n", kind, b.site,
+        (unsigned long long)b.reads, (unsigned long long)b.max_reads, (unsigned long long)b.bytes, (unsigned long long)b.max_bytes, (long long)b.window_live, (unsigned long long)b.max_heap, b.in_data, (unsigned long long)b.claimed_values, (unsigned long long)b.claimed_objects, b.soft, (unsigned long long)b.file_size); std::fclose(dbg); }
     return false;
 }
 
@@ -224,7 +226,8 @@ const size_t HDR = 16;
 inline void *sim_alloc(size_t size, bool nothrow) {
     sim::alloc_yield_hook(); // C18: an allocation inside library code is a point where another thread may run
     sim::BudgetState &b = sim::budget_state();
-    if (b.armed) {
+    const bool mine = !sim::in_harness_scope(); // the simulator's own blocks (schedule log, disk images) are not the load's
+    if (b.armed && mine) {
         uint64_t above = static_cast<uint64_t>(b.window_live > 0 ? b.window_live : 0);
         while (above + size > b.max_heap) {
             if (sim::budget_trip(b, "heap")) continue; // explained by the counts the file claims: budget enlarged once
@@ -240,7 +243,7 @@ inline void *sim_alloc(size_t size, bool nothrow) {
     uint64_t c = sim::g_count.fetch_add(1) + 1;
     sim::g_live.fetch_add(size);
     sim::t_live += static_cast<int64_t>(size);
-    if (b.armed) b.window_live += static_cast<int64_t>(size);
+    if (b.armed && mine) b.window_live += static_cast<int64_t>(size);
     unsigned char fill = static_cast<unsigned char>(sim::mix(sim::g_fill_seed.load(), c) & 0xff);
     void *p = static_cast<char *>(raw) + HDR;
     std::memset(p, fill, size < (1u << 20) ? size : (1u << 20)); // large blocks: only the first MiB (keeps them virtual)
@@ -252,7 +255,7 @@ inline void sim_free(void *p) noexcept {
     uint64_t size = *static_cast<uint64_t *>(raw);
     sim::g_live.fetch_sub(size);
     sim::t_live -= static_cast<int64_t>(size);
-    { sim::BudgetState &b = sim::budget_state(); if (b.armed) b.window_live -= static_cast<int64_t>(size); }
+    { sim::BudgetState &b = sim::budget_state(); if (b.armed && !sim::in_harness_scope()) b.window_live -= static_cast<int64_t>(size); }
     std::free(raw);
 }
 } // namespace
